@@ -131,7 +131,7 @@ def set_sym_offset(off: int):
 # --------------------------------------------------------------------------- #
 # S3 id-hash salts
 
-_salt_state = {"salt": None, "orig": {}, "n": 0, "base": 0}
+_salt_state = {"salt": None, "orig": {}, "n": 0, "base": 0, "reuse": False, "pool": []}
 
 
 def _mix(salt: int, key: int) -> int:
@@ -148,13 +148,22 @@ def salt_mark_base():
     _salt_state["base"] = _salt_state["n"]
 
 
-def salt_begin_run(salt: int):
+def salt_begin_run(salt: int, reuse: bool = False):
     """(Re)seed the hash order for one run.  Makes the iteration order of every
     set/dict keyed by Sym, LoopIR.proc, Config, Extern objects and Memory
     classes a function of `salt` and of creation order - not of memory
-    addresses, which depend on everything the process allocated before."""
+    addresses, which depend on everything the process allocated before.
+
+    reuse=True additionally simulates ADDRESS REUSE: exo hashes procedures by
+    id(), and CPython hands the address of a collected object to the next
+    allocation of the same size.  With reuse on, the serial number of a procedure
+    that dies goes to a LIFO free list and the next new procedure takes it - a
+    deterministic stand-in for the allocator, so that state keyed by a dead
+    procedure's hash (memo tables, caches) meets an unrelated live procedure."""
     install_hash_salt(salt)
     _salt_state["n"] = _salt_state["base"]
+    _salt_state["reuse"] = bool(reuse)
+    _salt_state["pool"] = []
 
 
 def install_hash_salt(salt: int):
@@ -191,10 +200,26 @@ def install_hash_salt(salt: int):
     def obj_hash(self):
         return _mix(st["salt"] ^ 0x5151, _serial(self))
 
+    def _proc_serial(obj):
+        s = obj.__dict__.get("_sim_serial")
+        if s is None:
+            if st["reuse"] and st["pool"]:
+                s = st["pool"].pop()  # the "address" of the most recently freed procedure
+            else:
+                st["n"] += 1
+                s = st["n"]
+            object.__setattr__(obj, "_sim_serial", s)
+            if st["reuse"]:
+                import weakref
+
+                pool = st["pool"]
+                weakref.finalize(obj, pool.append, s)
+        return s
+
     def proc_hash(self):
         # id-hash semantics are kept (two structurally equal procs are different
         # keys); only the value is a serial number instead of an address
-        return _mix(st["salt"] ^ 0xA7A7, _serial(self))
+        return _mix(st["salt"] ^ 0xA7A7, _proc_serial(self))
 
     Sym.__hash__ = sym_hash
     Config.__hash__ = obj_hash
